@@ -22,6 +22,7 @@ C10 == ev.ev = "merge" =>
           \/ Rep("C10", "merging changed what the rules grant or deny", [lost |-> Facts(Rs(ev.in), U) \ Facts(Rs(ev.out), U), gained |-> Facts(Rs(ev.out), U) \ Facts(Rs(ev.in), U)]))
     /\ (ev.out2 = ev.out \/ Rep("C10", "merging an already merged list changes it", [out |-> ev.out, again |-> ev.out2]))
 C11Cmp == ev.ev = "cmp" =>
+    /\ ((\A i \in DOMAIN ev.m : ev.m[i][i] = 0) \/ Rep("C11", "a rule does not compare equal to itself", {i \in DOMAIN ev.m : ev.m[i][i] # 0}))
     /\ (BadAnti(ev.m) = {}  \/ Rep("C11", "comparison is not antisymmetric", BadAnti(ev.m)))
     /\ (BadTrans(ev.m) = {} \/ Rep("C11", "comparison is not transitive", BadTrans(ev.m)))
     /\ (BadZero(ev.m, ev.same) = {} \/ Rep("C11", "two distinct rules compare equal", BadZero(ev.m, ev.same)))
